@@ -116,7 +116,7 @@ def make_tree(nest):
             fs.node('b').digest = 'X'
         fs.fault_at = v.int('fault_at', 0, 60)
         fs.fault_errno = M_ERRNOS[v.choice('en', len(M_ERRNOS))]
-        c.op = v.choice('op', 2)
+        c.op = v.choice('op', 3)
         return c
     return s_fault
 
@@ -124,6 +124,14 @@ def make_tree(nest):
 def run_fault(c):
     if c.op == 0:
         return tree.run_verify(c.fs, 'Manifest', '')
+    if c.op == 2:
+        # keep-going mode as `gemato verify -k` installs it: every report returns False
+        c.reports = []
+
+        def handler(err):
+            c.reports.append(err.path)
+            return False
+        return tree.run_verify(c.fs, 'Manifest', '', fail_handler=handler)
     return tree.run_update(c.fs, 'Manifest', '', ('MD5',), False, False)
 
 
@@ -135,6 +143,9 @@ def judge_fault(c, out):
     if c.op == 0:
         # the injected error, or a mismatch; never success
         return out in (want, 'mismatch'), True
+    if c.op == 2:
+        # keep-going: the error itself, or a reported failure; never success
+        return out in (want, 'false'), True
     # update: fails, and has written nothing
     failed = out == want or out.startswith('error:')
     return failed and not fs.log, True
@@ -155,15 +166,16 @@ def conditions(tier):
                        'check; matching or mismatching size/digest; with/without last_mtime'))
     full = tier != 'quick'
     for nest in ((False, True) if full else (True,)):
-        for fx in partitions([('op', range(2)), ('stray', (False, True)),
+        for fx in partitions([('op', range(3)), ('stray', (False, True)),
                               ('stale', (False, True))]):
             nm = f'm_fault_{"nest" if nest else "flat"}_op{fx["op"]}_s{int(fx["stray"])}' \
                  f'{int(fx["stale"])}'
             cs.append(make_cond(
                 nm, make_tree(nest), run_fault, judge_fault, fx, timeout=400, group='M',
                 real=False,
-                descr=('assert_directory_verifies' if fx['op'] == 0 else
-                       'update_entries_for_directory+save_manifests')
+                descr=('assert_directory_verifies', 'update_entries_for_directory+'
+                       'save_manifests', 'assert_directory_verifies with a keep-going handler '
+                       'returning False')[fx['op']]
                 + ' on the model with one OSError injected at a symbolic position among all '
                   'filesystem calls of the run (open, fstat, stat, scandir, fdopen, read, '
                   'Manifest open)',
